@@ -466,6 +466,12 @@ func dequeNonEmpty(c *Ctx, fn *ssa.Function, b *ssa.BasicBlock, idx int, recv ss
 			return true
 		}
 	}
+	// a count-down snapshot: `if iter.remaining == 0 { return }` where remaining was set to d.Len() when the iterator was
+	// created, only ever counts down from a non-zero value, and the generation test (which dominates) says the deque was not
+	// modified since: remaining != 0 ⇒ Len() was > 0 then ⇒ is > 0 now
+	if snapshotCounterEvidence(c, fn, gs, recv) {
+		return true
+	}
 	// helper: every call site provides the evidence for the corresponding argument
 	if depth < 3 && !token.IsExported(fn.Name()) && fn.Parent() == nil {
 		pv := valueProv(recv, provEnv{})
@@ -719,4 +725,150 @@ func divisorFromCallers(c *Ctx, fn *ssa.Function, div ssa.Value, depth int) bool
 		return false
 	}
 	return true
+}
+
+func snapshotCounterEvidence(c *Ctx, fn *ssa.Function, gs []guard, recv ssa.Value) bool {
+	pv := valueProv(recv, provEnv{})
+	root, ok := pv.root.(*ssa.Parameter)
+	if !ok || len(pv.fields) != 1 || len(fn.Params) == 0 || root != fn.Params[0] {
+		return false
+	}
+	dF := pv.fields[0]
+	pt, ok := root.Type().Underlying().(*types.Pointer)
+	if !ok {
+		return false
+	}
+	sT := pt.Elem()
+	fieldOf := func(v ssa.Value) (string, bool) {
+		p := valueProv(v, provEnv{})
+		if p.root == ssa.Value(root) && len(p.fields) == 1 {
+			return p.fields[0], true
+		}
+		return "", false
+	}
+	// the generation test: S.G == S.D.<field>
+	genOK := false
+	for _, g := range gs {
+		cf, ok := g.asCmp()
+		if !ok || cf.op != token.EQL {
+			continue
+		}
+		for _, pair := range [][2]ssa.Value{{cf.x, cf.y}, {cf.y, cf.x}} {
+			if _, ok := fieldOf(pair[0]); !ok {
+				continue
+			}
+			p2 := valueProv(pair[1], provEnv{})
+			if p2.root == ssa.Value(root) && len(p2.fields) == 2 && p2.fields[0] == dF {
+				genOK = true
+			}
+		}
+	}
+	if !genOK {
+		return false
+	}
+	nonZero := func(g guard, of func(ssa.Value) bool) bool {
+		cf, ok := g.asCmp()
+		if !ok {
+			return false
+		}
+		x, y, op := cf.x, cf.y, cf.op
+		if of(y) {
+			x, y, op = y, x, flip(op)
+		}
+		if !of(x) {
+			return false
+		}
+		k, ok := resolveVal(y).(*ssa.Const)
+		if !ok || k.Value == nil {
+			return false
+		}
+		n := k.Int64()
+		return (op == token.NEQ && n == 0) || (op == token.GTR && n >= 0) || (op == token.GEQ && n >= 1)
+	}
+	for _, g := range gs {
+		var cF string
+		if !nonZero(g, func(v ssa.Value) bool {
+			f, ok := fieldOf(v)
+			if ok && isIntType(v.Type()) {
+				cF = f
+			}
+			return ok && isIntType(v.Type())
+		}) || cF == "" {
+			continue
+		}
+		// every store to S.cF in the package: construction from Len() of the deque stored next to it, or a guarded decrement
+		all, n := true, 0
+		for _, f2 := range c.Funcs {
+			if rootFn(f2).Pkg != rootFn(fn).Pkg {
+				continue
+			}
+			instrs(f2, func(b *ssa.BasicBlock, i int, in ssa.Instruction) {
+				st, ok := in.(*ssa.Store)
+				if !ok {
+					return
+				}
+				fa, ok := st.Addr.(*ssa.FieldAddr)
+				if !ok || fieldName(fa.X.Type(), fa.Field) != cF {
+					return
+				}
+				if bt, ok := fa.X.Type().Underlying().(*types.Pointer); !ok || !types.Identical(origType(bt.Elem()), origType(sT)) {
+					return
+				}
+				n++
+				if al, ok := fa.X.(*ssa.Alloc); ok {
+					// construction: value is <deque>.Len() with <deque> the value stored into field dF of the same object
+					var dq ssa.Value
+					for _, ref := range refsOf(al) {
+						if fa2, ok := ref.(*ssa.FieldAddr); ok && fieldName(fa2.X.Type(), fa2.Field) == dF {
+							for _, r2 := range refsOf(fa2) {
+								if st2, ok := r2.(*ssa.Store); ok {
+									dq = st2.Val
+								}
+							}
+						}
+					}
+					call, ok := resolveVal(st.Val).(*ssa.Call)
+					if ok && dq != nil {
+						if cal := staticCallee(&call.Call); cal != nil && fname(cal) == "Len" && len(call.Call.Args) == 1 && resolveVal(call.Call.Args[0]) == resolveVal(dq) {
+							return
+						}
+					}
+					all = false
+					return
+				}
+				// decrement under a non-zero test of the same field
+				bin, ok := resolveVal(st.Val).(*ssa.BinOp)
+				selfField := func(v ssa.Value) bool {
+					p := valueProv(v, provEnv{})
+					pr, isP := p.root.(*ssa.Parameter)
+					return isP && len(f2.Params) > 0 && pr == f2.Params[0] && len(p.fields) == 1 && p.fields[0] == cF
+				}
+				if !ok || bin.Op != token.SUB || !isConstInt(bin.Y, 1) || !selfField(bin.X) {
+					all = false
+					return
+				}
+				guarded := false
+				for _, g2 := range guardsOf(b) {
+					if nonZero(g2, selfField) {
+						guarded = true
+					}
+				}
+				if !guarded {
+					all = false
+				}
+			})
+		}
+		if all && n >= 2 {
+			return true
+		}
+	}
+	return false
+}
+
+// origType: the generic origin of an instantiated named type (so iterator[T] in the generic body and in an instance compare equal).
+func origType(t types.Type) types.Type {
+	if nt, ok := t.(*types.Named); ok {
+		return nt.Origin()
+	}
+	return t
 }
